@@ -235,6 +235,14 @@ def run(report, index, tier):
                  'insertion decisions after them, depend on the capture '
                  'flags: %r' % (results,),
                  where='lexers/es5.py:Lexer.token / _token')
+    # ... nor with the semicolons of the restricted productions: after
+    # return / break / continue / throw, with the line break inside or
+    # behind a comment, the parser receives the same tokens whether the
+    # comments are captured or dropped
+    from .c04 import delivery, lexer_methods
+    delivery(r1, M.lexmodel, lexer_methods(M.lexmodel),
+             {'AutoLexToken': lambda: Obj('AutoLexToken')},
+             ((False, False), (False, True)))
     # with capture on, every comment is handed to exactly one token: the
     # next real one.  Raw stream [c1, T, c2, <LT>, ID] for every token
     # type T
